@@ -21,7 +21,13 @@ pub struct Case {
     /// second history, used by the `…; reset; <history>; reset` variant
     pub more: Vec<RawCmd>,
     /// 0: reset; exit   1: reset; reset; exit   2: reset; <more>; reset; exit   3: reset; quit (vs fresh run)
+    /// 4: reset; <more>; exit  vs a fresh session <more>; exit
+    /// 5: reset; goto <PC before the reset>; <more>; exit  vs a fresh session goto ..; <more>; exit
     pub variant: u8,
+    /// the history ends with `move <code location> xF025; continue`: when `reset` is issued the
+    /// debugger may be paused on a HALT that is not in the loaded image
+    #[serde(default)]
+    pub plant: Option<RawCmd>,
     /// a "quiet" history: only stores that land outside the program (through R7, the one register
     /// that is not zero at load, or through registers that are put back afterwards) and moves of the
     /// PC that are undone - when `reset` is issued every register, the PC and the condition code
@@ -116,15 +122,33 @@ pub fn judge_case(c: &Case) -> Obs {
     } else {
         (c.cmds.iter().map(make).collect(), c.more.iter().map(make).collect())
     };
+    let (mut cmds, mut more) = (cmds, more);
+    let variant = c.variant % 6;
+    if variant >= 4 {
+        // breakpoints are debugger state, not machine state: whether `reset` keeps them is not
+        // stated, so these histories leave them alone
+        cmds.retain(|c| !matches!(c, Cmd::BreakAdd(_) | Cmd::BreakRemove(_)));
+        more.retain(|c| !matches!(c, Cmd::BreakAdd(_) | Cmd::BreakRemove(_)));
+        if more.is_empty() {
+            more.push(Cmd::Continue);
+        }
+    }
+    if let (Some(r), false) = (&c.plant, c.quiet) {
+        cmds.push(Cmd::Move(PLoc::Mem(make_loc(&p, r.a, r.b, r.c, LocMode::Code)), 0xF025));
+        cmds.push(Cmd::Continue);
+        obs.label("history-ends-with-planted-halt-and-continue");
+    }
     let text = |v: &[Cmd]| v.iter().enumerate().map(|(i, c)| c.text(i as u8)).collect::<Vec<_>>().join("\n");
     let prefix = text(&cmds);
     let nl = |s: &str| if s.is_empty() { String::new() } else { format!("{s}\n") };
     let script_a = format!("{}exit", nl(&prefix));
-    let tail = match c.variant % 4 {
+    let tail = match variant {
         0 => "reset\nexit".to_string(),
         1 => "reset\nreset\nexit".to_string(),
         2 => format!("reset\n{}reset\nexit", nl(&text(&more))),
-        _ => "reset\nquit".to_string(),
+        3 => "reset\nquit".to_string(),
+        4 => format!("reset\n{}exit", nl(&text(&more))),
+        _ => format!("reset\ngoto <PC before the reset>\n{}exit", nl(&text(&more))),
     };
     let script_b = format!("{}{tail}", nl(&prefix));
     let shown = show_case(&p, &script_b, &[]);
@@ -140,7 +164,7 @@ pub fn judge_case(c: &Case) -> Obs {
     // (always through `--command`: a history may write an input trap into memory and run it, and
     // nothing here predicts that - with the script on standard input the program would read it)
     let run_lace = |p: &Prog, script: &str, input: &[u8], fuel: u64| run_lace_mode(p, script, input, fuel, minimal);
-    obs.label(["variant-reset", "variant-reset-twice", "variant-reset-history-reset", "variant-reset-then-run"][c.variant as usize % 4]);
+    obs.label(["variant-reset", "variant-reset-twice", "variant-reset-history-reset", "variant-reset-then-run", "variant-reset-then-session", "variant-reset-revisit-then-session"][variant as usize]);
 
     // Session A: the history alone - what did it change?
     let a = run_lace(&p, &script_a, &[], FUEL);
@@ -168,11 +192,47 @@ pub fn judge_case(c: &Case) -> Obs {
     obs.nontrivial = mem_outside_stack && before_reset.regs != loaded.regs && before_reset.pc != loaded.pc;
 
     // Session B: history; reset ...
+    let revisit = format!("goto x{:04X}", before_reset.pc);
+    let script_b = script_b.replace("goto <PC before the reset>", &revisit);
+    if variant >= 4 {
+        // history; reset; [goto X]; <more>; exit  ==  (output of the history) ++ fresh session [goto X]; <more>; exit
+        let script_c = format!("{}{}exit", if variant == 5 { nl(&revisit) } else { String::new() }, nl(&text(&more)));
+        let fresh = run_lace(&p, &script_c, &[], FUEL);
+        let Some(of) = outcome_of(&mut obs, "C12", &fresh, &shown) else { return obs };
+        if of.stop != Stop::Returned {
+            obs.excluded = Some("the fresh session does not come back to the prompt");
+            return obs;
+        }
+        if loaded.mem[before_reset.pc as usize] != before_reset.mem[before_reset.pc as usize] {
+            obs.label("reset-while-paused-on-a-changed-word");
+        }
+        // (session B runs the history and then the commands of the fresh session: the fuel of both)
+        let b = run_lace(&p, &script_b, &[], 2 * FUEL + 64);
+        let Some(ob) = outcome_of(&mut obs, "C12", &b, &shown) else { return obs };
+        let shown = format!("{shown}\n(goto <PC before the reset> = {revisit})");
+        if ob.stop != Stop::Returned {
+            obs.set_fail("C12:session-after-reset-did-not-return", format!("got {:?}; the same commands in a fresh session come back to the prompt\n{shown}", ob.stop));
+            return obs;
+        }
+        let mut expected_out = oa.stdout.clone();
+        expected_out.extend(&of.stdout);
+        if ob.stdout != expected_out {
+            obs.set_fail(
+                "C12:session-after-reset-output-differs",
+                format!("fresh session prints {:?}; after the history ({:?}) and reset the same commands printed {:?}\n{shown}", String::from_utf8_lossy(&of.stdout), String::from_utf8_lossy(&oa.stdout), String::from_utf8_lossy(&ob.stdout)),
+            );
+        } else if let (Some(x), Some(y)) = (&ob.fin, &of.fin) {
+            if let Some(d) = diff(x, y) {
+                obs.set_fail("C12:session-after-reset-final-state-differs", format!("after reset vs the same commands in a fresh session: {}\n{shown}", d.replace("at load", "fresh session")));
+            }
+        }
+        return obs;
+    }
     let b = run_lace(&p, &script_b, &[], FUEL);
     let Some(ob) = outcome_of(&mut obs, "C12", &b, &shown) else { return obs };
-    if c.variant % 4 != 3 {
+    if variant != 3 {
         if ob.stop != Stop::Returned {
-            if c.variant % 4 == 2 {
+            if variant == 2 {
                 obs.excluded = Some("second history does not come back to the prompt");
             } else {
                 obs.set_fail("C12:session-after-reset-did-not-return", format!("got {:?}\n{shown}", ob.stop));
@@ -213,12 +273,12 @@ pub fn judge_case(c: &Case) -> Obs {
 }
 
 fn cases() -> impl Strategy<Value = Case> {
-    (proggen::prog_spec(20), prop::collection::vec(raw_cmd(), 1..12), prop::collection::vec(raw_cmd(), 0..6), 0u8..4, prop::bool::weighted(0.15))
-        .prop_map(|(spec, mut cmds, more, variant, quiet)| {
+    (proggen::prog_spec(20), prop::collection::vec(raw_cmd(), 1..12), prop::collection::vec(raw_cmd(), 0..6), 0u8..6, prop::bool::weighted(0.15), crate::pick::opt(0.25, raw_cmd()))
+        .prop_map(|(spec, mut cmds, more, variant, quiet, plant)| {
             if quiet {
                 cmds.truncate(4);
             }
-            Case { spec, cmds, more, variant, quiet }
+            Case { spec, cmds, more, variant, quiet, plant }
         })
 }
 
@@ -227,8 +287,8 @@ impl Prop for C12 {
         "C12"
     }
     fn rule(&self) -> &'static str {
-        "ProgGen programs (incl. self-modifying stores, stores below the origin, into the stack area and to 0xFFFF through pointers) x histories of 1-11 commands over {move to any register / any memory location, goto, eval of arbitrary instructions incl. stores and jumps, step, step into k, continue, break add/remove, reset, and (a quarter) the inspection commands print / registers / assembly / break list / help / echo}, half of them in the normal (non-minimal) output mode; 15% are 'quiet' histories - stores through R7 or through registers that are put back, PC moves that are undone - after which every register, the PC and the condition code already equal their load-time values and only memory outside the program differs; followed by: reset | reset; reset | reset; <history>; reset | reset; quit. \
-         Oracle: after the final reset the full snapshot (8 registers, PC, CC, 65,536 words) equals the snapshot taken right after loading; for `reset; quit` the exit status and final state equal a fresh plain run and the output equals (output of the history) ++ (output of a fresh run). \
+        "ProgGen programs (incl. self-modifying stores, stores below the origin, into the stack area and to 0xFFFF through pointers) x histories of 1-11 commands over {move to any register / any memory location, goto, eval of arbitrary instructions incl. stores and jumps, step, step into k, continue, break add/remove, reset, and (a quarter) the inspection commands print / registers / assembly / break list / help / echo}, half of them in the normal (non-minimal) output mode; 15% are 'quiet' histories - stores through R7 or through registers that are put back, PC moves that are undone - after which every register, the PC and the condition code already equal their load-time values and only memory outside the program differs; followed by: reset | reset; reset | reset; <history>; reset | reset; quit | reset; <history> | reset; goto <where the PC was before the reset>; <history> (the last two without breakpoint commands; a quarter of all histories end with `move <code location> xF025; continue`, so that the reset may be issued while paused on a HALT that the loaded image does not have). \
+         Oracle: after the final reset the full snapshot (8 registers, PC, CC, 65,536 words) equals the snapshot taken right after loading; for `reset; quit` the exit status and final state equal a fresh plain run and the output equals (output of the history) ++ (output of a fresh run); for `reset; [goto X;] <history>` the output, the return to the prompt and the final state equal those of the same commands in a fresh session. \
          Non-trivial (measured on a twin session that ends before the reset): the history changed >= 1 memory word outside the stack page, >= 1 register and the PC. Distinct = hash(source, script)."
     }
     fn assumptions(&self) -> Vec<String> {
